@@ -4568,6 +4568,13 @@ class gmp_allocated_string {
     str = arg;
     len = std::strlen (str);
   }
+  /* for a block of n+1 bytes whose n data bytes may include NULs
+     (a fill character of '\0'): strlen would give the wrong size to free */
+  gmp_allocated_string(char *arg, size_t n)
+  {
+    str = arg;
+    len = n;
+  }
   ~gmp_allocated_string()
   {
     (*__gmp_free_func) (str, len+1);
